@@ -10,6 +10,44 @@ COMMON_NOTE = ("Trusted base: pyvc engine (AST transform T1-T3 of the real sourc
                "lift to C), A3 (integer powers), A4 (path forking via z3), A5 (numpy shim contracts, listed per run in evidence.trusted_base). ")
 
 CLAIMED = {
+    "C01": dict(
+        category="proof",
+        text=("Operator.compute is executed with q2_from and q2_to the same symbolic scale for every (order 1-4 x 0-2, nf 3-6, scale-variation "
+              "setting allowed by the proviso, threshold flag) and the members are pushed through ad_to_evol_map and to_flavor_basis_tensor: every row "
+              "of the flavour tensor is proved to be the unit row (photon: identity with QED, decoupled in pure QCD) and the error tensor zero, on "
+              "every feasible path; integrate() is replaced by 'arbitrary members', so a shortcut not taken fails the goal."),
+        note=COMMON_NOTE + "Operator built with object.__new__ (couplings not on the path). Grid size 2 (quick) / 1-3 (thorough): the construction is size-uniform. Quick tier runs a covering subset of the configuration product; thorough the full product.",
+        technique="contract-based deductive verification: path-exhaustive symbolic execution of the real methods + exact normal form",
+        design_ref="DESIGN.md section 2, C01",
+    ),
+    "C02": dict(
+        category="proof",
+        text=("_dot4 proved equal to the matrix contraction on fully symbolic tensors, _dotop's value/error rule, join = e_k ... e_1 for k = 1..7 over free "
+              "non-commuting symbols, _elements = image of matched_path with cliff <=> target on a matching scale for all 16 (nf0,nff) pairs with symbolic "
+              "scales on every feasible path, _create = duplicate-free union for several target patterns, and managed.solve's loop structure over ghost "
+              "inventories: each recipe computed once, each target stored once as the ordered product of its parts."),
+        note=COMMON_NOTE + "einsum shape-uniformity assumed; inventories as maps (C37); number of targets in _create bounded (1-3 targets, 5 equality patterns).",
+        technique="contract-based deductive verification: symbolic tensors, free-algebra words, path-exhaustive execution with z3",
+        design_ref="DESIGN.md section 2, C02",
+    ),
+    "C32": dict(
+        category="proof",
+        text=("For every label set produced by ad_to_evol_map (nf 3-6) and split_ad_to_evol_map (nf 3-5), QCD and QED, with one symbolic matrix per member, "
+              "all 196 blocks of the value and error tensors returned by to_flavor_basis_tensor are proved equal to R+_out M R_in built independently from the "
+              "documented flavour content of the labels; member-name sets checked against the statement."),
+        note=COMMON_NOTE + "Grid-size uniformity (2x2 symbolic members); label specification typed in contracts/C31.py / C33.py.",
+        technique="contract-based deductive verification: symbolic execution + exact normal form against an independently built specification tensor",
+        design_ref="DESIGN.md section 2, C32",
+    ),
+    "C52": dict(
+        category="proof",
+        text=("With arbitrary symbolic members, the rows and columns of every heavy quark/antiquark that is not active (pid > nf for evolution parts, > nf+1 for "
+              "matching parts) are proved to be unit vectors with zero error, for nf 3-6, QCD and QED; unit rows/columns are proved closed under the real "
+              "_dot4 product; the path-level statement follows with C19 and C02 by induction (lemma)."),
+        note=COMMON_NOTE + "All solution methods and orders are covered at once because the member matrices are arbitrary.",
+        technique="contract-based deductive verification: symbolic execution + exact normal form; closure lemma proved on the real contraction",
+        design_ref="DESIGN.md section 2, C52",
+    ),
     "C31": dict(
         category="proof",
         text=("Ground, exhaustive: both 14x14 rotation tables (row orthogonality, invertibility, every row equal to its documented flavour combination, "
